@@ -228,6 +228,40 @@ pub fn c11(seed: u64, budget: usize) -> Report {
                         if bits(&[whole[i]]) != bits(&e) { rep.fail("float conversion is not pointwise (self-feeding sequence)", format!("{} {:?}/{:?} position {} of {:?}", name, t, p, i, seq), format!("{:?}", whole[i]), format!("{:?}", e[0])); } }
                 }
             }
+            // history independence ("repeating a conversion gives bit-identical output"): a conversion gives the same bits on this
+            // worker thread - which has just run the same conversions with a configuration differing in ONE field - and on a
+            // fresh thread (caches keyed on part of the configuration, thread-local or global, show up here)
+            {
+                let hbd: u8 = *r.pick(&[8u8, 10, 12]); let hfull = r.below(2) == 1;
+                let derived = r.below(2) == 0;
+                let (hm, hp) = if derived { (*r.pick(&DERIVED5), *r.pick(&DERIVED_PRIMS)) } else { (*r.pick(&STD7), *r.pick(&DERIVED_PRIMS)) };
+                let ht = *r.pick(&TC14);
+                let c2 = cfg_of(hbd, 0, 0, hfull, mc_of(hm).unwrap(), tc_of(ht).unwrap(), cp_of(hp).unwrap());
+                let mut c1 = c2;
+                match r.below(5) {
+                    0 => { let mut q = hp; while q == hp { q = *r.pick(&DERIVED_PRIMS); } c1.color_primaries = cp_of(q).unwrap(); }
+                    1 => { let mut q = hm; while q == hm { q = if derived { *r.pick(&DERIVED5) } else { *r.pick(&STD7) }; } c1.matrix_coefficients = mc_of(q).unwrap(); }
+                    2 => { let mut q = ht; while q == ht { q = *r.pick(&TC14); } c1.transfer_characteristics = tc_of(q).unwrap(); }
+                    3 => { c1.full_range = !hfull; }
+                    _ => { c1.bit_depth = if hbd == 8 { 10 } else { 8 }; }
+                }
+                let codes_for = |c: &YuvConfig, r: &mut Rng| -> Vec<[u32; 3]> { let mx = (1u64 << c.bit_depth) - 1; (0..8).map(|_| [r.below(mx + 1) as u32, r.below(mx + 1) as u32, r.below(mx + 1) as u32]).collect() };
+                let k1 = codes_for(&c1, &mut r); let k2 = codes_for(&c2, &mut r);
+                let fimg = gen_image(0, r.next() >> 8, 8);
+                let all = |c: YuvConfig, k: &Vec<[u32; 3]>| -> (Vec<[u32; 3]>, Vec<[u32; 3]>, Vec<[u32; 3]>, Vec<[u32; 3]>) {
+                    let y = yuv444::<u16>(k, c);
+                    let a = bits(Rgb::try_from(&y).unwrap().data());
+                    let b = bits(LinearRgb::try_from(&y).unwrap().data());
+                    let src = Rgb::new(fimg.clone(), 8, 1, c.transfer_characteristics, c.color_primaries).unwrap();
+                    let e = codes_of(&Yuv::<u16>::try_from((&src, c)).unwrap());
+                    let f = codes_of(&Yuv::<u16>::try_from((LinearRgb::new(fimg.clone(), 8, 1).unwrap(), c)).unwrap());
+                    (a, b, e, f) };
+                let _ = all(c1, &k1);
+                let here = all(c2, &k2);
+                let fresh = std::thread::scope(|sc| sc.spawn(|| all(c2, &k2)).join().unwrap());
+                rep.evaluated += 4;
+                if here != fresh { rep.fail("result depends on the conversions run before on the same thread", format!("C11 history {:?} after {:?}", c2, c1), "".into(), "".into()); }
+            }
         }
         rep
     }).collect();
@@ -249,7 +283,7 @@ pub fn c12(seed: u64, tier: u32) -> Report {
             let (ts, bd, ssx, ssy) = (n(t[2 - 1 + 0]), n(t[2]), n(t[3]), n(t[4]));
             // plane geometry: (w h xdec ydec) and coverage for raw planes
             let pl: Vec<(u64, u64, u64, u64, bool, Vec<u64>)> = segs[1..4].iter().map(|s| { let q: Vec<&str> = s.split(' ').collect(); let v: Vec<u64> = q[1..].iter().map(|x| n(x)).collect();
-                if q[0] == "n" { (v[0], v[1], v[2], v[3], true, v) } else { let covers = (v[9] + v[3] - 1) * v[0] + v[8] + v[2] <= v[10]; (v[2], v[3], v[4], v[5], covers, v) } }).collect();
+                if q[0] == "n" { (v[0], v[1], v[2], v[3], true, v) } else { let covers = (v[2] as u128) * (v[3] as u128) <= u64::MAX as u128 && (v[9] as u128 + v[3] as u128 - 1) * v[0] as u128 + v[8] as u128 + v[2] as u128 <= v[10] as u128; (v[2], v[3], v[4], v[5], covers, v) } }).collect();
             let (w, h) = (pl[0].0, pl[0].1);
             let exp_err = if pl[1].2 != ssx || pl[2].2 != ssx || pl[1].3 != ssy || pl[2].3 != ssy { Some("SubsamplingMismatch") }
                 else if w % (1 << ssx) != 0 { Some("InvalidLumaWidth") } else if h % (1 << ssy) != 0 { Some("InvalidLumaHeight") }
